@@ -4,6 +4,7 @@ package main
 // "copy with exactly that entry set / removed / moved" oracle.
 
 import (
+	"encoding/json"
 	"fmt"
 	"strings"
 
@@ -233,6 +234,10 @@ func c11Gen(r *Rng, n int) []string {
 			switch r.Intn(3) {
 			case 0:
 				val := r.Value(&cfg, 3, false)
+				if r.P(15) {
+					// the value argument may have any Go type: it is stored as it is
+					val = []interface{}{int(7), int(9007199254740993), int32(-3), float32(2.5), uint(18446744073709551615), int8(-8), int64(1) << 60, json.Number("1e3")}[r.Intn(8)]
+				}
 				ops = append(ops, fmt.Sprintf("setv %s %s %s", ms, enc(val), encStr(path)))
 			case 1:
 				ops = append(ops, fmt.Sprintf("remove %s %s", ms, encStr(path)))
